@@ -242,6 +242,8 @@ void root() {
 void configure(Config &c, Rng &) {
   swarm_schedule(c, 300);
   c.step_cap = 300000;
+  static const double pe[] = {0, 0, 0.05, 0.3};   // interrupted lock waits (sem_wait / shm_open / sem_open answer EINTR): the buffer lock must still be taken exactly once
+  c.p[ST_EINTR] = pe[gen(4)];
 }
 
 }  // namespace
